@@ -253,6 +253,36 @@ func establishedOrder(info *types.Info, par map[ast.Node]ast.Node, asg map[types
 					}
 				case core.IsCallTo(info, c, "sort.Ints") && sortable(c.Args[0]):
 					return "asc", "sort.Ints"
+				case core.IsCallTo(info, c, "sort.Slice", "sort.SliceStable") && len(c.Args) == 2 && sortable(c.Args[0]):
+					// sort.Slice(xs, func(a, b int) bool { return xs[a] > xs[b] })
+					if lit, ok := ast.Unparen(c.Args[1]).(*ast.FuncLit); ok && len(lit.Body.List) == 1 && lit.Type.Params.NumFields() == 2 {
+						if rs, ok := lit.Body.List[0].(*ast.ReturnStmt); ok && len(rs.Results) == 1 {
+							if be, ok := ast.Unparen(rs.Results[0]).(*ast.BinaryExpr); ok && (be.Op == token.GTR || be.Op == token.LSS) {
+								var ps []types.Object
+								for _, f := range lit.Type.Params.List {
+									for _, n := range f.Names {
+										ps = append(ps, info.Defs[n])
+									}
+								}
+								idx := func(e ast.Expr) types.Object {
+									ix, ok := ast.Unparen(e).(*ast.IndexExpr)
+									if !ok || core.ObjOf(info, ix.X) != xs {
+										return nil
+									}
+									return core.ObjOf(info, ix.Index)
+								}
+								l, rr := idx(be.X), idx(be.Y)
+								if len(ps) == 2 && l != nil && rr != nil && l != rr {
+									desc := (be.Op == token.GTR && l == ps[0] && rr == ps[1]) || (be.Op == token.LSS && l == ps[1] && rr == ps[0])
+									if desc {
+										return "desc", "sort.Slice with a descending comparison"
+									}
+									return "asc", "sort.Slice with an ascending comparison"
+								}
+							}
+						}
+					}
+					return "", "sort.Slice with a comparison that is not a plain comparison of two elements"
 				case core.IsCallTo(info, c, "github.com/go-flip/flip.Flip") && sortable(c.Args[0]):
 					// flipped: what was it before?
 					for j := i - 1; j >= 0; j-- {
